@@ -83,7 +83,11 @@ def dim_json(d):
     typedef = {"class": "categorical", "categories": cats}
     if d.get("doc_order"):
         typedef = {"class": "categorical", "categories": [cats[k] for k in d["doc_order"]], "order": [c["id"] for c in cats]}
-    return [{"type": typedef, "references": {"alias": d["name"], "name": d["name"].upper()}}]
+    refs = {"alias": d["name"], "name": d["name"].upper()}
+    if d.get("view_insertions"):
+        # insertions saved on the variable: displayed unless the analysis supplies its own
+        refs["view"] = {"transform": {"insertions": copy.deepcopy(d["view_insertions"])}}
+    return [{"type": typedef, "references": refs}]
 
 
 def axes_of(d):
@@ -699,6 +703,17 @@ def gen_strand_case(rnd):
         rs = gen_respondents(rnd, dims, rnd.choice([0, 3, 8, 15, 25]), weighted)
         d = dims[0]
     t = {}
+    if kind in ("CAT", "CAT_DATE") and rnd.random() < 0.3:
+        ids_ = [c["id"] for c in d["cats"]]
+        vi = []
+        for k in range(rnd.choice([1, 2])):
+            pos = rnd.sample(ids_, rnd.choice([1, min(2, len(ids_))]))
+            if rnd.random() < 0.5:
+                vi.append({"function": "subtotal", "name": "v%d" % k, "anchor": rnd.choice(["top", "bottom"] + ids_), "args": pos})
+            else:
+                vi.append({"function": "subtotal", "name": "vd%d" % k, "anchor": rnd.choice(["top", "bottom"] + ids_),
+                           "kwargs": {"positive": pos, "negative": rnd.sample(ids_, 1)}})
+        d["view_insertions"] = vi
     if kind != "MR":
         ids = [c["id"] for c in d["cats"]]
         if rnd.random() < 0.7:
@@ -721,7 +736,8 @@ def gen_strand_case(rnd):
             t["order"] = {"type": "explicit", "element_ids": rnd.sample(ids, len(ids))}
     if rnd.random() < 0.4:
         t["prune"] = True
-    return dict(dims=dims, rs=rs, weighted=weighted, transforms={"rows_dimension": t} if t else {})
+    return dict(dims=dims, rs=rs, weighted=weighted, transforms={"rows_dimension": t} if t else {},
+                mask=rnd.choice([0, 0, 1, 3, 8, 20]))
 
 
 def _ca_json(d):
@@ -763,7 +779,7 @@ class StrandEndToEnd(EnumContract):
              "subtotals / differences (multi-term, stale, overlapping), hide / prune / explicit order; seeded sample")
     clauses = ("strand-counts", "strand-bases", "strand-proportions", "strand-stderr", "strand-population",
                "strand-subtotals", "strand-visibility", "strand-labels", "strand-ranges", "strand-exception", "ca-stack",
-               "ca-slice")
+               "ca-slice", "strand-min-base-mask")
 
     def cases(self, cfg, seed, thorough):
         rnd = random.Random(7000 + seed)
@@ -779,7 +795,8 @@ class StrandEndToEnd(EnumContract):
         d = dims[0]
         bad = set()
         if d["kind"] == "CA":
-            cube = Cube(tabulate_ca(d, rs, weighted), cube_idx=0, transforms=copy.deepcopy(tr) or None, population=1000)
+            cube = Cube(tabulate_ca(d, rs, weighted), cube_idx=0, transforms=copy.deepcopy(tr) or None, population=1000,
+                        mask_size=case.get("mask", 0))
             parts = cube.partitions
             if len(parts) != d["n"] or any(type(p).__name__ != "_Strand" for p in parts):
                 return ["ca-stack"]
@@ -808,7 +825,7 @@ class StrandEndToEnd(EnumContract):
                 bad.add("ca-slice")
             for k, p in enumerate(parts):
                 sub = [dict(a=[r["a"][0][k]], w=r["w"]) for r in rs]
-                for b in self._check_strand(p, cat, sub, weighted, tr):
+                for b in self._check_strand(p, cat, sub, weighted, tr, case.get("mask", 0)):
                     bad.add(b)
                 # equal to the item's univariate analysis (C06)
                 q = Cube(tabulate([cat], sub, weighted), transforms=copy.deepcopy(tr) or None, population=1000).partitions[0]
@@ -822,13 +839,14 @@ class StrandEndToEnd(EnumContract):
                     except Exception:
                         bad.add("ca-stack")
             return sorted(bad)
-        cube = Cube(tabulate(dims, rs, weighted), transforms=copy.deepcopy(tr) or None, population=1000)
+        cube = Cube(tabulate(dims, rs, weighted), transforms=copy.deepcopy(tr) or None, population=1000,
+                    mask_size=case.get("mask", 0))
         parts = cube.partitions
         if len(parts) != 1 or type(parts[0]).__name__ != "_Strand":
             return ["strand-exception"]
-        return sorted(self._check_strand(parts[0], d, rs, weighted, tr))
+        return sorted(self._check_strand(parts[0], d, rs, weighted, tr, case.get("mask", 0)))
 
-    def _check_strand(self, p, d, rs, weighted, tr):
+    def _check_strand(self, p, d, rs, weighted, tr, mask=0):
         import numpy as np
 
         bad = set()
@@ -846,7 +864,8 @@ class StrandEndToEnd(EnumContract):
         ins = []
         if not is_mr:
             vids = [d["cats"][i]["id"] for i in V]
-            for one in t.get("insertions") or []:
+            effective = t["insertions"] if "insertions" in t else (d.get("view_insertions") or [])
+            for one in effective:
                 pos = (one.get("kwargs") or {}).get("positive") or one.get("args", [])
                 neg = (one.get("kwargs") or {}).get("negative", [])
                 if set(pos + neg) & set(vids):
@@ -887,6 +906,9 @@ class StrandEndToEnd(EnumContract):
                 bad.add("strand-counts" if not S else "strand-subtotals")
             if not (close(get("weighted_bases"), vec(WB, [tbw] * S)) and close(get("unweighted_bases"), vec(UB, [tbu] * S))):
                 bad.add("strand-bases")
+            # C02: the minimum-base mask is true exactly where the unweighted base is below the threshold
+            if [bool(x) for x in p.min_base_size_mask] != [b < mask for b in vec(UB, [tbu] * S)]:
+                bad.add("strand-min-base-mask")
             P = [div(W[n], WB[n]) for n in range(len(V))]
             PS, VS = [], []
             for s in range(S):
